@@ -43,6 +43,7 @@ pub struct World {
     pub owners: usize,
     pub owner_base: usize,
     pub leaked: usize,
+    pub ctl_base: usize,
     /// memory handed out as `&'static [u8]`; released after the last handle of the script is gone
     pub statics: Vec<*mut [u8]>,
 }
@@ -84,7 +85,7 @@ fn blk(addr: usize, cap0: bool) -> String {
 
 impl World {
     pub fn new() -> World {
-        World { hs: Vec::with_capacity(64), owners: 0, owner_base: 0, leaked: 0, statics: Vec::new() }
+        World { hs: Vec::with_capacity(64), owners: 0, owner_base: 0, leaked: 0, ctl_base: ledger::CTL_TRACKED_LIVE.load(Ordering::SeqCst), statics: Vec::new() }
     }
 
     fn b(&self, i: usize) -> Option<&Bytes> {
@@ -101,7 +102,11 @@ impl World {
                 Some(H::B(b)) => println!(
                     "h {} B {} {} - {} {}",
                     i,
-                    if b.is_empty() && ledger::find_block(b.as_ptr() as usize).is_none() { "none".to_string() } else { blk(b.as_ptr() as usize, false) },
+                    if b.is_empty() && (ledger::find_block(b.as_ptr() as usize).is_none() || ledger::on_shared_boundary(b.as_ptr() as usize)) {
+                        "none".to_string()
+                    } else {
+                        blk(b.as_ptr() as usize, false)
+                    },
                     b.len(),
                     b.is_unique() as u8,
                     contents(b)
@@ -111,7 +116,10 @@ impl World {
                 Some(H::M(m)) => println!(
                     "h {} M {} {} {} - {}",
                     i,
-                    blk(m.as_ptr() as usize, m.capacity() == 0 && ledger::find_block(m.as_ptr() as usize).is_none()),
+                    blk(
+                        m.as_ptr() as usize,
+                        m.capacity() == 0 && (ledger::find_block(m.as_ptr() as usize).is_none() || ledger::on_shared_boundary(m.as_ptr() as usize))
+                    ),
                     m.len(),
                     m.capacity(),
                     contents(m)
@@ -132,9 +140,9 @@ impl World {
         let name = *w.first()?;
         // ---- prepare arguments outside the tracked region
         let bytes_arg = match name {
-            "fromstatic" | "copy" | "owner" | "mfrom" => Some(unhex(w.get(1)?)?),
+            "fromstatic" | "copy" | "owner" | "mfrom" | "collect" | "mcollect" => Some(unhex(w.get(1)?)?),
             "newvec" => Some(unhex(w.get(1)?)?),
-            "extend" => Some(unhex(w.get(2)?)?),
+            "extend" | "extendit" | "extendref" | "putslice" => Some(unhex(w.get(2)?)?),
             _ => None,
         };
         macro_rules! tracked {
@@ -206,6 +214,17 @@ impl World {
                 let r = tracked!(BytesMut::from(&bs[..]));
                 self.push(r.map(H::M))
             }
+            // FromIterator entry points: same allocation pattern as copy_from_slice / From<&[u8]> (exact-size Vec)
+            "collect" => {
+                let bs = bytes_arg?;
+                let r = tracked!(bs.iter().copied().collect::<Bytes>());
+                self.push(r.map(H::B))
+            }
+            "mcollect" => {
+                let bs = bytes_arg?;
+                let r = tracked!(bs.iter().copied().collect::<BytesMut>());
+                self.push(r.map(H::M))
+            }
             "mzero" => {
                 let n = num(1)?;
                 let r = tracked!(BytesMut::zeroed(n));
@@ -220,10 +239,15 @@ impl World {
                 };
                 self.push(r)
             }
-            "slice" | "sliceinc" => {
+            "slice" | "sliceinc" | "slicex" => {
                 let (i, lo, hi) = (num(1)?, num(2)?, num(3)?);
                 let b = self.b(i)?;
-                let r = if name == "slice" { tracked!(b.slice(lo..hi)) } else { tracked!(b.slice(lo..=hi)) };
+                let r = match name {
+                    "slice" => tracked!(b.slice(lo..hi)),
+                    "sliceinc" => tracked!(b.slice(lo..=hi)),
+                    // excluded start bound (only expressible through a pair of Bounds)
+                    _ => tracked!(b.slice((std::ops::Bound::Excluded(lo), std::ops::Bound::Excluded(hi)))),
+                };
                 self.push(r.map(H::B))
             }
             "sliceref" => {
@@ -362,6 +386,20 @@ impl World {
                 };
                 tracked!(m.extend_from_slice(&bs)).map(|_| Out::Unit)
             }
+            // the same append through the other entry points (all `reserve(n)` once, then write: same model operation)
+            "extendit" | "extendref" | "putslice" => {
+                let i = num(1)?;
+                let bs = bytes_arg?;
+                let m = match self.hs.get_mut(i)?.as_mut()? {
+                    H::M(m) => m,
+                    _ => return None,
+                };
+                match name {
+                    "extendit" => tracked!(m.extend(bs.iter().copied())).map(|_| Out::Unit),
+                    "extendref" => tracked!(m.extend(bs.iter())).map(|_| Out::Unit),
+                    _ => tracked!(bytes::BufMut::put_slice(m, &bs)).map(|_| Out::Unit),
+                }
+            }
             "resize" => {
                 let (i, n, b) = (num(1)?, num(2)?, num(3)?);
                 let m = match self.hs.get_mut(i)?.as_mut()? {
@@ -492,7 +530,12 @@ pub fn end_script(w: &mut World, rng: &mut Rng, a1_before: usize) {
     for i in live {
         run_op(w, &format!("drop {}", i));
     }
-    println!("balance align1_live_delta={} violations={}", ledger::A1_TRACKED_LIVE.load(Ordering::SeqCst) as i64 - a1_before as i64, ledger::VIOLATIONS.load(Ordering::SeqCst));
+    println!(
+        "balance align1_live_delta={} ctl_live_delta={} violations={}",
+        ledger::A1_TRACKED_LIVE.load(Ordering::SeqCst) as i64 - a1_before as i64,
+        ledger::CTL_TRACKED_LIVE.load(Ordering::SeqCst) as i64 - w.ctl_base as i64,
+        ledger::VIOLATIONS.load(Ordering::SeqCst)
+    );
     // every handle is gone: the "static" memory of this script can go too (keeps the ledger's block table small).
     // Only when nothing is left alive — a leaked handle (a defect under test) may still point into it.
     if w.live().is_empty() {
@@ -524,6 +567,17 @@ const SETUPS: &[(&str, &[&str])] = &[
     ("mut-full", &["mfrom 0102030405060708"]),
     ("vec", &["newvec 0102030405060708 10"]),
     ("empty-bytes", &["copy -"]),
+    // states that differ from the above only in their history (stale bookkeeping inside control blocks, offsets, uniqueness regained)
+    ("prom-unique-again", &["copy 0102030405060708", "clone 0", "drop 1"]),
+    ("shared-adv", &["newvec 0102030405060708 12", "fromvec 0", "adv 0 2"]),
+    ("owner-sliced", &["owner 0102030405060708", "adv 0 2", "trunc 0 4"]),
+    ("mut-vec-consumed", &["mcap 8", "extend 0 0102030405060708", "adv 0 8"]),
+    ("frozen-vec-adv", &["mfrom 0102030405060708", "adv 0 3", "freeze 0"]),
+    ("mut-shared-grown", &["mcap 16", "extend 0 010203", "splitoff 0 8", "drop 1", "extend 0 0405060708"]),
+    ("frozen-shared-grown", &["mcap 16", "extend 0 010203", "splitoff 0 8", "drop 1", "extend 0 0405060708", "freeze 0"]),
+    ("mut-arc-offset", &["mcap 16", "extend 0 0102030405060708090a", "splitto 0 3"]),
+    ("two-full", &["mzero 8", "mzero 8"]),
+    ("mut-big-spare", &["mcap 4096", "extend 0 0102030405060708090a0b0c0d0e0f1011121314"]),
 ];
 
 fn boundary_args(len: usize, cap: usize) -> Vec<usize> {
@@ -563,6 +617,7 @@ fn ops_for(w: &World, i: usize, rng: &mut Rng, boundary: bool) -> Vec<String> {
                     v.push(format!("slice {} {} {}", i, a, b));
                     v.push(format!("sliceinc {} {} {}", i, a, b));
                 }
+                v.push(format!("slicex {} {} {}", i, a, len));
             }
             for off in 0..=len.min(3) {
                 for l in 0..=(len - off).min(2) {
@@ -581,6 +636,10 @@ fn ops_for(w: &World, i: usize, rng: &mut Rng, boundary: bool) -> Vec<String> {
             v.push(format!("extend {} a1a2a3", i));
             v.push(format!("extend {} {}", i, hex(&vec![0xb7u8; cap - len + 1])));
             v.push(format!("extend {} {}", i, hex(&vec![0xb8u8; 40])));
+            v.push(format!("extendit {} a1a2a3", i));
+            v.push(format!("extendit {} {}", i, hex(&vec![0xb7u8; cap - len + 1])));
+            v.push(format!("extendref {} {}", i, hex(&vec![0xb9u8; cap - len + 2])));
+            v.push(format!("putslice {} {}", i, hex(&vec![0xbau8; cap - len + 1])));
             for a in &args {
                 v.push(format!("splitoff {} {}", i, a));
                 v.push(format!("splitto {} {}", i, a));
@@ -687,7 +746,27 @@ fn valid_ops(w: &World, i: usize) -> Vec<String> {
     v
 }
 
+/// the same model operation through a different public entry point, now and then
 fn random_op(w: &World, rng: &mut Rng) -> String {
+    let o = random_op0(w, rng);
+    let swap = |o: &str, from: &str, to: &str| format!("{}{}", to, &o[from.len()..]);
+    if o.starts_with("extend ") && rng.chance(1, 3) {
+        let to = *rng.pick(&["extendit ", "extendref ", "putslice "]);
+        return swap(&o, "extend ", to);
+    }
+    if o.starts_with("copy ") && rng.chance(1, 3) {
+        return swap(&o, "copy ", "collect ");
+    }
+    if o.starts_with("mfrom ") && rng.chance(1, 3) {
+        return swap(&o, "mfrom ", "mcollect ");
+    }
+    if o.starts_with("slice ") && rng.chance(1, 8) {
+        return swap(&o, "slice ", "slicex ");
+    }
+    o
+}
+
+fn random_op0(w: &World, rng: &mut Rng) -> String {
     let live = w.live();
     if live.is_empty() || (live.len() < 7 && rng.chance(1, 6)) {
         let n = rng.below(12) as usize;
